@@ -194,7 +194,9 @@ CLAIMED = {
                 'file lists. Model tied to the code by an EXHAUSTIVE run of all 216 configurations (x present/absent) in fresh interpreters with '
                 'urlopen/requests/socket interposed and file opens logged',
         "design_ref": 'DESIGN.md 5/C16',
-        "note": 'trusted: Coq kernel, OS change-time ordering, existence of the packaged platforms.txt; exhaustive for the stated abstraction',
+        "note": 'trusted: Coq kernel, OS change-time ordering, existence of the packaged platforms.txt; exhaustive for the stated abstraction; additionally '
+                'translator/gen_source.py (fail-closed AST extraction) REGENERATES the if/elif/else tree of _get_uris_and_open_func on every run, proved to be the '
+                "model's decision on all inputs, with 'network iff no file and TLES unset' read off the regenerated tree (C16_source_*)",
         "technique": 'finite-enum Gallina model + destruct/vm_compute; exhaustive subprocess correspondence',
     },
     "C17": {
